@@ -61,7 +61,8 @@ CHECKS = [
           "construction costs a textbook-LR(1) grammar its determinism (C02_phantom_item_costs_determinism_refuted, C02_lr1_notions_differ_refuted, "
           "C02_phantom_needs_unproductive): known finding C02-phantom-item-unproductive-rule, reproduced in every run by a family of grammars with "
           "unproductive rules of empty FIRST judged by an independent textbook oracle over (production, dot, token) triples; the same failure on a "
-          "productive grammar is a violation.",
+          "productive grammar is a violation. "
+          "Third session, last clause (never more states than the canonical automaton): C02_live_state_covers_canonical, C02_pager_run_complete, C02_pg_run_deterministic, C02_state_has_viable_path, C02_pager_states_le_canonical_partial (an injection states -> canonical states under the NAMED condition path_function), C02_pager_states_le_canonical_distinct_cores (a theorem for every graph without split cores; executable test distinct_coresb); the full statement pager_states_le_canonical_stmt is stated, unproved, and FALSE on grammars with unproductive rules (known finding C02-more-states-than-canonical-unproductive: 75 vs 72 states, reproduced in every run); per generated graph the check records which argument covers it (quick: 205 distinct cores, 45 path_function, 0 observed only); a construction panic on a generated grammar is a VIOLATION.",
   "design_ref": "DESIGN.md §5 C02",
   "note": _TB + "canon_lr1 is unverified but its output is validated per grammar by the proved validators; canon_lr1 and the validators' closure condition share the code's closure notion (items without lookahead), the textbook side is an independent Python oracle + the extracted canon_tb certified by lr1_textbook_check.",
   "technique": "Coq proof (Pager's theorem and correctness of a mirror of pager_stategraph for all grammars; agreement of validated automata) + replay of the implementation's run by the extracted mirror + validated canonical LR(1) reference differential"},
